@@ -111,6 +111,14 @@ WPartial == /\ CanWrap
                   /\ \E rows \in {<<2, 0>>, <<0, 2>>} : Wrap([k |-> "partial", p |-> p, shape |-> ReplaceAt(s, 1, 3), idx |-> [kind |-> "intarr", rows |-> rows]])
                \/ /\ Len(s) >= 1 /\ s[1] = 2
                   /\ Wrap([k |-> "partial", p |-> p, shape |-> ReplaceAt(s, 1, 3), idx |-> [kind |-> "boolarr", rows |-> <<0, 2>>]])
+               \* slices with a step (-99 stands for None): x[0::2], x[::-2] (rows 2, 0), x[1::-1] (rows 1, 0 of 3), x[::2] of 4 with 2 rows
+               \/ /\ Len(s) >= 1 /\ s[1] = 2
+                  /\ \E sl \in {[lo |-> 0, hi |-> -99, step |-> 2, rows |-> <<0, 2>>, n |-> 3],
+                                 [lo |-> -99, hi |-> -99, step |-> -2, rows |-> <<2, 0>>, n |-> 3],
+                                 [lo |-> 1, hi |-> -99, step |-> -1, rows |-> <<1, 0>>, n |-> 3],
+                                 [lo |-> 1, hi |-> -99, step |-> 2, rows |-> <<1, 3>>, n |-> 4]} :
+                       Wrap([k |-> "partial", p |-> p, shape |-> ReplaceAt(s, 1, sl.n),
+                             idx |-> [kind |-> "sslice", lo |-> sl.lo, hi |-> sl.hi, step |-> sl.step, rows |-> sl.rows]])
                \/ Wrap([k |-> "partial", p |-> p, shape |-> <<2, 2>> \o s, idx |-> [kind |-> "tuple", i |-> 1, j |-> 0]])
 WReshape == /\ CanWrap
             /\ \E s \in Shapes : Prod(s) = Size(p) /\ s # SemShape(p) /\
